@@ -1109,6 +1109,25 @@ func genC04x(r *world.Rng, w *world.World, big bool, overProb float64) {
 				poolVec = append([]int{}, c.Coefs...)
 			}
 			c.K = r.Range(1, sum)
+			if r.Bool(0.2) {
+				// coefficients of either sign (a caller writing "2a - 3b >= -1"), and now and then a degree that
+				// makes the constraint trivially true or trivially false
+				lo, hi := 0, 0
+				for j := range c.Coefs {
+					if r.Bool(0.4) {
+						c.Coefs[j] = -c.Coefs[j]
+					}
+					if c.Coefs[j] < 0 {
+						lo += c.Coefs[j]
+					} else {
+						hi += c.Coefs[j]
+					}
+				}
+				c.K = r.Range(lo+1, max(hi, lo+1))
+				if r.Bool(0.2) {
+					c.K = r.Pick(lo, lo-1, hi+1)
+				}
+			}
 		}
 		wgt := 0
 		if r.Bool(0.6) {
